@@ -544,6 +544,72 @@ pub fn run_with(rng: &mut Rng, n: usize, rep: &mut Report, lines: &mut Option<Ve
                     else if k.w.accounts != snap { rep.fail("C08 a refused Kamino instruction changed the store".to_string()); }
                     k.w.accounts = before;
                 }
+                // ------------------------------------------------------------ forced deleverage through the venue under a daily limit
+                // (on a copy of the world) the risk admin takes the user's Kamino collateral out - with an explicit amount or with
+                // withdraw_all - and repays the user's debt, in one [start_deleverage .. end_deleverage] transaction, while the group
+                // has a daily dollar limit: a committed transaction never withdraws more whole dollars than the limit allows
+                11 if sh0 >> 48 > 0 => {
+                    let mut w2 = k.w.clone();
+                    let held = (sh0 >> 48) as u64;
+                    // the position's value in dollars: collateral x exchange rate x $1 (confidence 0), exactly
+                    let value_cents: BigInt = (BigInt::from(held) * &liq_sf * BigInt::from(100u32) / &col) >> 60u32;
+                    let value_cents = value_cents / BigInt::from(10u64).pow(k.dec as u32);
+                    let dollars: u64 = (value_cents.clone() / BigInt::from(100u32)).to_string().parse().unwrap_or(u64::MAX);
+                    if dollars >= 4 && dollars < u32::MAX as u64 / 4 {
+                        // some debt to repay (a tenth of the collateral's value), borrowed by the user beforehand
+                        let debt_amt = (dollars / 10).max(1) * 1_000_000;
+                        let risk = w2.remaining_for(&acct, &[k.debt.bank]);
+                        let has_debt = w2.marginfi_account(&acct).lending_account.balances.iter().any(|b| b.is_active() && b.bank_pk == k.debt.bank && bits(b.liability_shares) > 0)
+                            || w2.exec(&ix::borrow(&k.debt, acct, wallet, td, debt_amt, risk)).is_ok();
+                        // the collateral then loses most of its weight (admin re-configuration), so that the account is unhealthy at
+                        // maintenance level and taking the collateral while repaying the debt does not make its health worse
+                        let has_debt = has_debt && w2.exec(&ix::configure_bank(&k.kb, k.admin, marginfi_type_crate::types::BankConfigOpt {
+                            asset_weight_init: Some(I80F48::from_num(0.04).into()), asset_weight_maint: Some(I80F48::from_num(0.05).into()),
+                            operational_state: Some(BankOperationalState::Operational), ..Default::default() })).is_ok();
+                        if has_debt {
+                            w2.add_liquidation_record(acct, k.admin);
+                            let admin_tok = w2.add_token_account(k.debt.mint, k.admin, u64::MAX / 8);
+                            let all = rng.chance(1, 2);
+                            let take: u64 = if all { held } else { *rng.pick(&[held, held / 2, held / 4 + 1]) };
+                            let take_dollars: u64 = ((BigInt::from(take) * &liq_sf / &col) >> 60u32).to_string().parse::<u128>().map(|v| (v / 10u128.pow(k.dec as u32)) as u64).unwrap_or(u64::MAX);
+                            let limit: u32 = match rng.below(4) { 0 => (take_dollars / 2).max(1) as u32, 1 => take_dollars.saturating_sub(2).max(1) as u32, 2 => (take_dollars + 2) as u32, _ => (take_dollars * 3 + 5) as u32 };
+                            if w2.exec(&ix::configure_deleverage_withdrawal_limit(k.group, k.admin, limit)).is_ok() {
+                                let mut kk = Kw { w: w2, group: k.group, admin: k.admin, kb: k.kb, debt: k.debt, reserve: k.reserve, obligation: k.obligation, market: k.market, market_auth: k.market_auth,
+                                    supply_vault: k.supply_vault, col_mint: k.col_mint, col_vault: k.col_vault, oracle: k.oracle, users: k.users.clone(), dec: k.dec };
+                                let wd = {
+                                    // receivership: the risk admin signs, the health check is deferred to the end: no risk accounts needed for
+                                    // the gate, but the price of the bank is read from the remaining accounts for the limit
+                                    let mut ixn = kk.withdraw_ix(u, k.admin, if all { 0 } else { take }, all);
+                                    // (withdraw_ix appended the sorted risk accounts of the post-state; for the receivership price lookup the
+                                    // bank's own accounts must be among them: use the full pre-state list)
+                                    let n_named = ixn.accounts.len() - if all { kk.w.remaining_sorted(&acct, &[], &[k.kb.bank]).len() } else { kk.w.remaining_for(&acct, &[]).len() };
+                                    ixn.accounts.truncate(n_named);
+                                    ixn.accounts.extend(kk.w.remaining_for(&acct, &[]));
+                                    ixn
+                                };
+                                let tx = vec![
+                                    ix::start_deleverage(k.group, acct, k.admin, kk.w.remaining_in_slot_order(&acct)),
+                                    wd,
+                                    ix::repay(&k.debt, acct, k.admin, admin_tok, 0, Some(true)),
+                                    ix::end_deleverage(k.group, acct, k.admin, kk.w.remaining_sorted(&acct, &[], &if all { vec![k.kb.bank, k.debt.bank] } else { vec![k.debt.bank] })),
+                                ];
+                                let r = kk.w.exec_tx(&tx);
+                                rep.bump("delev_limit_probes");
+                                match r {
+                                    Ok(()) => {
+                                        rep.bump("delev_committed");
+                                        if take_dollars > limit as u64 + 1 {
+                                            rep.fail(format!("C12 a forced deleverage took {} collateral tokens worth {} whole dollars out of a Kamino position (withdraw_all = {}) in one committed transaction under a daily limit of {} dollars", take, take_dollars, all, limit));
+                                        }
+                                    }
+                                    Err((i, e)) => {
+                                        rep.bump(&format!("delev_refused_at_{}_{}", i, e.code().map(|c| c.to_string()).unwrap_or_else(|| "other".into())));
+                                    }
+                                }
+                            }
+                        }
+                    }
+                }
                 // ------------------------------------------------------------ the admin changes the bank's operational state
                 _ => {
                     let st = *rng.pick(&[BankOperationalState::Operational, BankOperationalState::Operational, BankOperationalState::Paused, BankOperationalState::ReduceOnly]);
